@@ -635,6 +635,200 @@ pub fn sc_var_read_owned(input: &[u8]) -> u32 {
     0
 }
 
+// ------------------------------------------------------------------ BOUNDED stand-ins: containers
+// The array / Vec codecs use castaway::cast!, MaybeUninit and transmute (outside Verus).  These
+// scenarios compare the real decoder with a reference decoder written here, on all inputs up
+// to a stated length.  They are bounded in the input length and reported as such.
+
+/// reference: lenient var_i32 at the start of `b`; (value, used) or None
+pub fn ref_var_i32(b: &[u8]) -> Option<(i32, usize)> {
+    let mut val: u64 = 0;
+    let mut used = 0usize;
+    while used < 5 && used < b.len() {
+        let x = b[used];
+        val |= ((x & 0x7F) as u64) << (7 * used);
+        used += 1;
+        if x & 0x80 == 0 || used == 5 {
+            let u = val as u32;
+            let v = ((u >> 1) as i32) ^ -((u & 1) as i32);
+            return Some((v, used));
+        }
+    }
+    None
+}
+
+/// reference decoder of a sequence of exactly 2 big-endian u16 in either size form;
+/// Some((a, b, used)) or None for "must be rejected"
+pub fn ref_seq2_u16(b: &[u8]) -> Option<(u16, u16, usize)> {
+    let (count, mut p) = ref_var_i32(b)?;
+    if count == -1 {
+        let mut out = [0u16; 2];
+        let mut n = 0usize;
+        loop {
+            if p >= b.len() {
+                return None;
+            }
+            let flag = b[p];
+            p += 1;
+            if flag == 0 {
+                break;
+            }
+            if flag != 1 || n == 2 || p + 2 > b.len() {
+                return None;
+            }
+            out[n] = ((b[p] as u16) << 8) | b[p + 1] as u16;
+            p += 2;
+            n += 1;
+        }
+        if n != 2 {
+            return None;
+        }
+        Some((out[0], out[1], p))
+    } else {
+        if count != 2 || p + 4 > b.len() {
+            return None;
+        }
+        Some((((b[p] as u16) << 8) | b[p + 1] as u16, ((b[p + 2] as u16) << 8) | b[p + 3] as u16, p + 4))
+    }
+}
+
+/// `[u16; 2]`: accepted iff the stream holds exactly two elements (known or unknown size form),
+/// value taken from the input only (C06/C12/C19), nothing uninitialised, no panic (C05)
+pub fn sc_arr_u16x2(input: &[u8]) -> u32 {
+    let mut c = std::mem::ManuallyDrop::new(DeserializationContext::new(input));
+    let r = <[u16; 2] as BinaryDeserializer>::deserialize(&mut *c);
+    match ref_seq2_u16(input) {
+        None => {
+            if r.is_ok() {
+                return 1;
+            }
+        }
+        Some((a, b, used)) => {
+            match r {
+                Ok(arr) if arr[0] == a && arr[1] == b => {}
+                _ => return 2,
+            }
+            let nx = c.read_u8();
+            if used == input.len() {
+                if !is_eof(&nx) {
+                    return 3;
+                }
+            } else {
+                match nx {
+                    Ok(x) if x == input[used] => {}
+                    _ => return 3,
+                }
+            }
+        }
+    }
+    0
+}
+
+/// `[u8; 4]`: unsigned varint length that must be exactly 4, then the 4 bytes themselves
+pub fn sc_arr_u8x4(input: &[u8]) -> u32 {
+    let mut c = std::mem::ManuallyDrop::new(DeserializationContext::new(input));
+    let r = <[u8; 4] as BinaryDeserializer>::deserialize(&mut *c);
+    // reference
+    let mut val: u64 = 0;
+    let mut used = 0usize;
+    let mut complete = false;
+    while used < 5 && used < input.len() {
+        let x = input[used];
+        val |= ((x & 0x7F) as u64) << (7 * used);
+        used += 1;
+        if x & 0x80 == 0 || used == 5 {
+            complete = true;
+            break;
+        }
+    }
+    let len = val as u32;
+    if !complete || len != 4 || used + 4 > input.len() {
+        return if r.is_err() { 0 } else { 1 };
+    }
+    match r {
+        Ok(arr) => {
+            let mut i = 0;
+            while i < 4 {
+                if arr[i] != input[used + i] {
+                    return 2;
+                }
+                i += 1;
+            }
+        }
+        Err(_) => return 3,
+    }
+    0
+}
+
+/// `Vec<u16>` decoder == reference on short inputs (element count <= 2)
+pub fn sc_vec_u16(input: &[u8]) -> u32 {
+    let mut c = std::mem::ManuallyDrop::new(DeserializationContext::new(input));
+    let r = <Vec<u16> as BinaryDeserializer>::deserialize(&mut *c);
+    let r = std::mem::ManuallyDrop::new(r);
+    // reference (known form only needs count*2 bytes; unknown form flagged items)
+    let head = ref_var_i32(input);
+    let (count, mut p) = match head {
+        None => return if r.is_err() { 0 } else { 1 },
+        Some(x) => x,
+    };
+    let mut exp = [0u16; 3];
+    let mut n = 0usize;
+    let mut ok = true;
+    if count == -1 {
+        loop {
+            if p >= input.len() {
+                ok = false;
+                break;
+            }
+            let flag = input[p];
+            p += 1;
+            if flag == 0 {
+                break;
+            }
+            if flag != 1 || p + 2 > input.len() || n == 3 {
+                ok = false;
+                break;
+            }
+            exp[n] = ((input[p] as u16) << 8) | input[p + 1] as u16;
+            p += 2;
+            n += 1;
+        }
+    } else if count < 0 {
+        ok = false;
+    } else {
+        let cnt = count as usize;
+        if cnt > 3 || p + 2 * cnt > input.len() {
+            ok = false;
+        } else {
+            while n < cnt {
+                exp[n] = ((input[p] as u16) << 8) | input[p + 1] as u16;
+                p += 2;
+                n += 1;
+            }
+        }
+    }
+    match &*r {
+        Ok(v) => {
+            if !ok || v.len() != n {
+                return 2;
+            }
+            let mut i = 0;
+            while i < 3 {
+                if i < n && v[i] != exp[i] {
+                    return 3;
+                }
+                i += 1;
+            }
+        }
+        Err(_) => {
+            if ok {
+                return 4;
+            }
+        }
+    }
+    0
+}
+
 pub type Scenario = fn(&[u8]) -> u32;
 
 /// name, function, input length the harness quantifies over, description
@@ -669,6 +863,9 @@ pub const SCENARIOS: &[(&str, Scenario, usize, &str)] = &[
     ("iter_count", sc_iter_count, 8, "serialize_iterator with an exact size hint n (all usize n): Ok + zig-zag varint of n iff n <= i32::MAX, else Err(LengthTooLarge), never a panic"),
     ("iter_unknown", sc_iter_unknown, 2, "serialize_iterator without exact size: -1, (1 item)*, 0 for 0..=2 items"),
     ("var_read_owned", sc_var_read_owned, 6, "read_var_u32 on OwnedInput == lenient reference reader, all inputs of length 0..=6"),
+    ("arr_u16x2", sc_arr_u16x2, 8, "BOUNDED: [u16;2] decoder == reference (both size forms, exact count) on all inputs of length 0..=8"),
+    ("arr_u8x4", sc_arr_u8x4, 6, "BOUNDED: [u8;4] decoder == reference (length must be 4) on all inputs of length 0..=6"),
+    ("vec_u16", sc_vec_u16, 6, "BOUNDED: Vec<u16> decoder == reference on all inputs of length 0..=6"),
     ("var_read_any", sc_var_read_any, 6, "read_var_u32 == lenient reference reader on all inputs of length 0..=6"),
 ];
 
